@@ -23,13 +23,13 @@ theorem loadLines_append (st : LoadState) (a b : List Str) :
 def addMisc (db : Db) (m : Misc) : Db :=
   { db with classes := db.classes ++ miscClasses m, uaOs := db.uaOs ++ miscUaOs m }
 
-/-- a misc line the loader reads completely -/
-def MiscOk (m : Misc) : Prop := WFMisc m ∧ ¬ Huginn.KF.C06.miscUnreadable m
+/-- a misc line the loader reads completely (every well-formed one, since the `ua_os` fix) -/
+abbrev MiscOk (m : Misc) : Prop := WFMisc m
 
 theorem loadLine_misc (st : LoadState) {m : Misc} (h : MiscOk m) :
     loadLine st (stripCr (renderMisc m)) = .ok { st with db := addMisc st.db m } := by
   rw [loadLine_stripCr]
-  obtain ⟨wf, hk⟩ := h
+  have wf : WFMisc m := h
   cases m with
   | comment lead text =>
     have : addMisc st.db (.comment lead text) = st.db := by simp [addMisc, miscClasses, miscUaOs]
@@ -41,9 +41,7 @@ theorem loadLine_misc (st : LoadState) {m : Misc} (h : MiscOk m) :
     have := loadLine_classes st wf.1 wf.2.1 wf.2.2
     simpa [renderMisc, addMisc, miscClasses, miscUaOs] using this
   | uaOs pad rs =>
-    have hr : ∀ r ∈ rs, ¬ Huginn.KF.C06.ruleUnreadable r := by
-      intro r hm hu; exact hk ⟨r, hm, hu⟩
-    have := loadLine_uaOs st wf.1 wf.2.1 hr
+    have := loadLine_uaOs st wf.1 wf.2.1 wf.2.2
     simpa [renderMisc, addMisc, miscClasses, miscUaOs] using this
 
 /-! ### tables as lenses into `Db` -/
@@ -231,17 +229,17 @@ def tcpLens (resp : Bool) : Lens Label TcpSig := if resp then lensTcpResp else l
 def httpLens (resp : Bool) : Lens Label HttpSig := if resp then lensHttpResp else lensHttpReq
 
 /-- item of a section that the loader reads completely -/
-def ItemOk {lab σ} (wl : lab → Prop) (pl : lab → Str) (ws : σ → Prop) (ps : σ → Str) (it : Item lab σ) : Prop :=
-  WFItem wl pl ws ps it ∧ ∀ m, it = .misc m → ¬ Huginn.KF.C06.miscUnreadable m
+abbrev ItemOk {lab σ} (wl : lab → Prop) (pl : lab → Str) (ws : σ → Prop) (ps : σ → Str) (it : Item lab σ) : Prop :=
+  WFItem wl pl ws ps it
 
 theorem tcp_item (resp : Bool) (db : Db) (it : Item LabelL TcpSig)
     (hok : ItemOk WFLabel renderLabel WFTcp printTcpSig it)
     (hne : (∃ p s, it = .sig p s) → (tcpLens resp).get db ≠ []) :
     loadLine ⟨db, some (tcpKw, some (dirKw resp))⟩ (stripCr (renderItem renderLabel printTcpSig it)) =
       .ok ⟨stepItem (tcpLens resp) LabelL.toSig id db it, some (tcpKw, some (dirKw resp))⟩ := by
-  obtain ⟨wf, hm⟩ := hok
+  have wf := hok
   cases it with
-  | misc m => exact loadLine_misc _ ⟨wf, hm m rfl⟩
+  | misc m => exact loadLine_misc _ wf
   | sys p t =>
     rw [loadLine_stripCr]
     simp only [renderItem]
@@ -263,18 +261,18 @@ theorem tcp_item (resp : Bool) (db : Db) (it : Item LabelL TcpSig)
     | true =>
       rw [loadNamed_sig_tcpResp _ (by decide) tcpKw_ne_mtu wf.1 wf.2.2 hs hne']; rfl
 
-theorem parseHttpSigFull_print (s : HttpSigL) (wf : WFHttpL s) (hk : ¬ Huginn.KF.C06.httpEmptyHorder s) :
+theorem parseHttpSigFull_print (s : HttpSigL) (wf : WFHttpL s) :
     parseHttpSigFull (printHttpSigL s) = some s.toSig := by
-  simp [parseHttpSigFull, parseHttpSigFullL_print s wf.version (fun h hh => (wf.horder h hh).1) wf.habsent hk]
+  simp [parseHttpSigFull, parseHttpSigFullL_print s wf]
 
 theorem http_item (resp : Bool) (db : Db) (it : Item LabelL HttpSigL)
-    (hok : ItemOk WFLabel renderLabel WFHttpL printHttpSigL it) (hk : ¬ Huginn.KF.C06.itemEmptyHorder it)
+    (hok : ItemOk WFLabel renderLabel WFHttpL printHttpSigL it)
     (hne : (∃ p s, it = .sig p s) → (httpLens resp).get db ≠ []) :
     loadLine ⟨db, some (httpKw, some (dirKw resp))⟩ (stripCr (renderItem renderLabel printHttpSigL it)) =
       .ok ⟨stepItem (httpLens resp) LabelL.toSig HttpSigL.toSig db it, some (httpKw, some (dirKw resp))⟩ := by
-  obtain ⟨wf, hm⟩ := hok
+  have wf := hok
   cases it with
-  | misc m => exact loadLine_misc _ ⟨wf, hm m rfl⟩
+  | misc m => exact loadLine_misc _ wf
   | sys p t =>
     rw [loadLine_stripCr]
     simp only [renderItem]
@@ -285,7 +283,7 @@ theorem http_item (resp : Bool) (db : Db) (it : Item LabelL HttpSigL)
     rw [loadLine_named _ rfl wf.1 (Or.inl rfl) wf.2.2, loadNamed_label _ _ httpKw_ne_mtu wf.1 l wf.2.1 wf.2.2]
     cases resp <;> rfl
   | sig p s =>
-    have hs := parseHttpSigFull_print s wf.2.1 hk
+    have hs := parseHttpSigFull_print s wf.2.1
     have hne' := hne ⟨p, s, rfl⟩
     rw [loadLine_stripCr]
     simp only [renderItem]
@@ -301,9 +299,9 @@ theorem mtu_item (db : Db) (it : Item Str Nat)
     (hne : (∃ p s, it = .sig p s) → lensMtu.get db ≠ []) :
     loadLine ⟨db, some (mtuKw, none)⟩ (stripCr (renderItem id natDigits it)) =
       .ok ⟨stepItem lensMtu id id db it, some (mtuKw, none)⟩ := by
-  obtain ⟨wf, hm⟩ := hok
+  have wf := hok
   cases it with
-  | misc m => exact loadLine_misc _ ⟨wf, hm m rfl⟩
+  | misc m => exact loadLine_misc _ wf
   | sys p t =>
     rw [loadLine_stripCr]
     simp only [renderItem]
@@ -337,9 +335,9 @@ theorem other_item {m : Str} {d : Option Str} (hk : knownModule m d = false) (db
     (hok : ItemOk WFLabel renderLabel (fun _ => True) id it) :
     loadLine ⟨db, some (m, d)⟩ (stripCr (renderItem renderLabel id it)) = .ok ⟨stepOther db it, some (m, d)⟩ := by
   obtain ⟨hm, ht⟩ := tableOf_unknown hk
-  obtain ⟨wf, hmisc⟩ := hok
+  have wf := hok
   cases it with
-  | misc mm => exact loadLine_misc _ ⟨wf, hmisc mm rfl⟩
+  | misc mm => exact loadLine_misc _ wf
   | sys p t =>
     rw [loadLine_stripCr]
     simp only [renderItem]
@@ -390,10 +388,8 @@ def modOf : Section → Str × Option Str
   | .mtu _ _ _ => (mtuKw, none)
   | .other _ _ m d _ => (m, d)
 
-/-- a section the loader reads completely: well-formed and outside the known-finding classes -/
-def SectionOk (s : Section) : Prop :=
-  WFSection s ∧ ¬ Huginn.KF.C06.sectionEmptyHorder s ∧
-    ∀ m ∈ sectionMiscs s, ¬ Huginn.KF.C06.miscUnreadable m
+/-- a section the loader reads completely: every well-formed one -/
+abbrev SectionOk (s : Section) : Prop := WFSection s
 
 theorem mem_miscsOf {lab σ} {items : List (Item lab σ)} {m : Misc} (h : Item.misc m ∈ items) :
     m ∈ miscsOf items := by
@@ -423,12 +419,11 @@ theorem loadLine_header' (st : LoadState) {lead trail : Str} (hl : allWs lead) (
 
 theorem load_section (s : Section) (h : SectionOk s) (st : LoadState) :
     loadLines st ((sectionLines s).map stripCr) = .ok ⟨st.db.append (secDb s), some (modOf s)⟩ := by
-  obtain ⟨wf, hkf, hmisc⟩ := h
+  have wf : WFSection s := h
   cases s with
   | tcp lead trail resp items =>
     obtain ⟨hl, ht, hno, hit⟩ := wf
-    have hok : ∀ it ∈ items, ItemOk WFLabel renderLabel WFTcp printTcpSig it := fun it hm =>
-      ⟨hit it hm, fun m e => hmisc m (by subst e; exact mem_miscsOf hm)⟩
+    have hok : ∀ it ∈ items, ItemOk WFLabel renderLabel WFTcp printTcpSig it := hit
     simp only [sectionLines, List.map_cons, loadLines, tcp_header_name,
       loadLine_header' st hl ht alpha_tcp (alpha_dir resp), List.map_map, Function.comp_def]
     rw [loadLines_items (tcpLens resp) LabelL.toSig id renderLabel printTcpSig _ _
@@ -439,21 +434,18 @@ theorem load_section (s : Section) (h : SectionOk s) (st : LoadState) :
         mapTable, miscClasses, miscUaOs]
   | http lead trail resp items =>
     obtain ⟨hl, ht, hno, hit⟩ := wf
-    have hok : ∀ it ∈ items, ItemOk WFLabel renderLabel WFHttpL printHttpSigL it ∧
-        ¬ Huginn.KF.C06.itemEmptyHorder it := fun it hm =>
-      ⟨⟨hit it hm, fun m e => hmisc m (by subst e; exact mem_miscsOf hm)⟩, fun hk => hkf ⟨it, hm, hk⟩⟩
+    have hok : ∀ it ∈ items, ItemOk WFLabel renderLabel WFHttpL printHttpSigL it := hit
     simp only [sectionLines, List.map_cons, loadLines, http_header_name,
       loadLine_header' st hl ht alpha_http (alpha_dir resp), List.map_map, Function.comp_def]
     rw [loadLines_items (httpLens resp) LabelL.toSig HttpSigL.toSig renderLabel printHttpSigL _ _
-      (fun db it ho hne => http_item resp db it ho.1 ho.2 hne) items st.db hok (Or.inl hno),
+      (fun db it ho hne => http_item resp db it ho hne) items st.db hok (Or.inl hno),
       foldl_stepItem, absorbT_noOrphan _ _ _ _ hno, addMiscs_eq]
     cases resp <;>
       simp [httpLens, lensHttpReq, lensHttpResp, Db.append, secDb, flatten, allMiscs, sectionMiscs, modOf,
         mapTable, miscClasses, miscUaOs]
   | mtu lead trail items =>
     obtain ⟨hl, ht, hno, hit⟩ := wf
-    have hok : ∀ it ∈ items, ItemOk (fun _ => True) id (fun n => n ≤ 65535) natDigits it := fun it hm =>
-      ⟨hit it hm, fun m e => hmisc m (by subst e; exact mem_miscsOf hm)⟩
+    have hok : ∀ it ∈ items, ItemOk (fun _ => True) id (fun n => n ≤ 65535) natDigits it := hit
     simp only [sectionLines, List.map_cons, loadLines, mtu_header_name,
       loadLine_header' st hl ht alpha_mtu alpha_none, List.map_map, Function.comp_def]
     rw [loadLines_items lensMtu id id id natDigits _ _
@@ -462,8 +454,7 @@ theorem load_section (s : Section) (h : SectionOk s) (st : LoadState) :
     simp [lensMtu, Db.append, secDb, flatten, allMiscs, sectionMiscs, modOf, mapTable, miscClasses, miscUaOs]
   | other lead trail m d items =>
     obtain ⟨hl, ht, hm, hd, hk, hit⟩ := wf
-    have hok : ∀ it ∈ items, ItemOk WFLabel renderLabel (fun _ => True) id it := fun it hm =>
-      ⟨hit it hm, fun m e => hmisc m (by subst e; exact mem_miscsOf hm)⟩
+    have hok : ∀ it ∈ items, ItemOk WFLabel renderLabel (fun _ => True) id it := hit
     simp only [sectionLines, List.map_cons, loadLines, loadLine_header' st hl ht hm hd,
       List.map_map, Function.comp_def]
     rw [other_items hk items st.db hok, addMiscs_eq]
@@ -477,18 +468,11 @@ set_option linter.unusedSimpArgs false
 
 /-! ### whole documents -/
 
-/-- a document the loader reads completely: well-formed and outside the known-finding classes -/
-def DocOk (d : Doc) : Prop :=
-  WFDoc d ∧ ¬ Huginn.KF.C06.uaOsLossy d ∧ ¬ Huginn.KF.C06.docEmptyHorder d
+/-- a document the loader reads completely: every well-formed one -/
+abbrev DocOk (d : Doc) : Prop := WFDoc d
 
-theorem DocOk.pre {d : Doc} (h : DocOk d) : ∀ m ∈ d.pre, MiscOk m := fun m hm =>
-  ⟨h.1.pre m hm, fun hu => h.2.1 ⟨m, by simp [allMiscs, hm], hu⟩⟩
-
-theorem DocOk.section {d : Doc} (h : DocOk d) : ∀ s ∈ d.sections, SectionOk s := fun s hs =>
-  ⟨h.1.sections s hs, fun hk => h.2.2 ⟨s, hs, hk⟩,
-   fun m hm hu => h.2.1 ⟨m, by
-     simp only [allMiscs, List.mem_append, List.mem_flatMap]
-     exact Or.inr ⟨s, hs, hm⟩, hu⟩⟩
+theorem DocOk.pre {d : Doc} (h : DocOk d) : ∀ m ∈ d.pre, MiscOk m := WFDoc.pre h
+theorem DocOk.section {d : Doc} (h : DocOk d) : ∀ s ∈ d.sections, SectionOk s := WFDoc.sections h
 
 theorem load_pre (pre : List Misc) (h : ∀ m ∈ pre, MiscOk m) (st : LoadState) :
     loadLines st (pre.map (fun m => stripCr (renderMisc m))) = .ok { st with db := addMiscs st.db pre } := by
@@ -653,7 +637,7 @@ theorem noNl_docLines {d : Doc} (h : WFDoc d) : ∀ l ∈ docLines d, '\n' ∉ l
 /-- **loading the rendering of a document yields the database the document denotes** -/
 theorem loadDb_renderDoc (d : Doc) (h : DocOk d) : loadDb (renderDoc d) = .ok (flatten d) := by
   unfold loadDb renderDoc
-  rw [lines_renderLines (noNl_docLines h.1), load_doc_lines d h]
+  rw [lines_renderLines (noNl_docLines h), load_doc_lines d h]
   rfl
 
 end Huginn.SigText
@@ -681,7 +665,7 @@ theorem loadDb_fault (d : Doc) (h : DocOk d) {m : Str} {dd : Option Str}
   have hnl : ∀ l ∈ docLines d ++ named pad n v :: rest, '\n' ∉ l := by
     intro l hl
     rcases List.mem_append.mp hl with hl | hl
-    · exact noNl_docLines h.1 l hl
+    · exact noNl_docLines h l hl
     · rcases List.mem_cons.mp hl with rfl | hl
       · exact noNl_named hp (by rcases hn with rfl | rfl | rfl <;> decide) hv.2.1
       · exact hrest l hl
@@ -702,7 +686,7 @@ theorem loadDb_outside (pre : List Misc) (hpre : ∀ m ∈ pre, MiscOk m) (l : S
     intro x hx
     rcases List.mem_append.mp hx with hx | hx
     · obtain ⟨m, hm, rfl⟩ := List.mem_map.mp hx
-      exact noNl_renderMisc (hpre m hm).1
+      exact noNl_renderMisc (hpre m hm)
     · rcases List.mem_cons.mp hx with rfl | hx
       · exact hl
       · exact hrest x hx
